@@ -7,7 +7,7 @@
 use crate::replay::Tally;
 use crate::util::*;
 use precis_core::Codepoints;
-use precis_tools::{BidiClassGen, GeneralCategoryGen, RustCodeGen, UcdFileGen, UcdTableGen, UnassignedTableGen, UnicodeGen, ViramaTableGen, WidthMappingTableGen};
+use precis_tools::{BidiClassGen, CodeGen, GeneralCategoryGen, RustCodeGen, UcdCodeGen, UcdFileGen, UcdTableGen, UnassignedTableGen, UnicodeGen, ViramaTableGen, WidthMappingTableGen};
 use serde_json::{json, Value};
 use std::io::Write;
 use std::path::{Path, PathBuf};
@@ -30,6 +30,7 @@ fn render_line(cp: u32, kind: &str, v: u64, base: u32, model_cp: u32) -> String 
 
 pub struct Tables {
     pub gc: Vec<Codepoints>,
+    pub gc2: Vec<Codepoints>,
     pub vir: Vec<Codepoints>,
     pub un: Vec<Codepoints>,
     pub bidi: Vec<(Codepoints, String)>,
@@ -114,7 +115,7 @@ fn declared_len(line: &str) -> Option<usize> {
 }
 
 pub fn parse_tables(src: &str) -> Tables {
-    let mut t = Tables { gc: vec![], vir: vec![], un: vec![], bidi: vec![], wm: vec![] };
+    let mut t = Tables { gc: vec![], gc2: vec![], vir: vec![], un: vec![], bidi: vec![], wm: vec![] };
     let mut cur = String::new();
     let mut declared: Vec<(String, usize)> = Vec::new();
     for line in src.lines() {
@@ -136,6 +137,7 @@ pub fn parse_tables(src: &str) -> Tables {
         if let Some((e, after)) = parse_entry(line) {
             match cur.as_str() {
                 "T_GC" => t.gc.push(e),
+                "T_GC2" => t.gc2.push(e),
                 "T_VIR" => t.vir.push(e),
                 "T_UN" => t.un.push(e),
                 "T_BIDI" => {
@@ -156,6 +158,7 @@ pub fn parse_tables(src: &str) -> Tables {
     for (name, n) in declared {
         let got = match name.as_str() {
             "T_GC" => t.gc.len(),
+            "T_GC2" => t.gc2.len(),
             "T_VIR" => t.vir.len(),
             "T_UN" => t.un.len(),
             "T_BIDI" => t.bidi.len(),
@@ -204,11 +207,35 @@ fn run_generators_once(dir: &Path, out: &Path) -> Result<String, String> {
     gc_gen.add(Box::new(UnassignedTableGen::new("T_UN")));
     gc_gen.add(Box::new(BidiClassGen::new("T_BIDI")));
     gc_gen.add(Box::new(WidthMappingTableGen::new("T_WM")));
+    // the same category collected a second time under another table name (e.g. Zs for a category set and for the
+    // profiles' space table): both tables must come out alike
+    gc_gen.add(Box::new(UcdTableGen::new("Lu", "T_GC2")));
     ucd_gen.add(Box::new(gc_gen));
     gen.add(Box::new(ucd_gen));
     gen.generate_code().map_err(|e| e.to_string())?;
     drop(gen);
-    std::fs::read_to_string(out).map_err(|e| e.to_string())
+    let text = std::fs::read_to_string(out).map_err(|e| e.to_string())?;
+    // a parsed aggregator emits the same code every time it is asked to (two copies for two crates)
+    let mut agg = GeneralCategoryGen::new();
+    agg.add(Box::new(UcdTableGen::new("Lu", "T_GC")));
+    agg.add(Box::new(ViramaTableGen::new("T_VIR")));
+    agg.add(Box::new(UnassignedTableGen::new("T_UN")));
+    agg.add(Box::new(BidiClassGen::new("T_BIDI")));
+    agg.add(Box::new(WidthMappingTableGen::new("T_WM")));
+    agg.parse_unicode_file(dir).map_err(|e| e.to_string())?;
+    let mut copies: Vec<String> = Vec::new();
+    for k in 0..2 {
+        let path = dir.join(format!("copy{}.rs", k));
+        let mut f = std::fs::File::create(&path).map_err(|e| e.to_string())?;
+        agg.generate_code(&mut f).map_err(|e| e.to_string())?;
+        drop(f);
+        copies.push(std::fs::read_to_string(&path).map_err(|e| e.to_string())?);
+        std::fs::remove_file(&path).ok();
+    }
+    if copies[0] != copies[1] {
+        return Err(format!("STALE: the second emission of a parsed aggregator differs from the first ({} vs {} bytes)", copies[0].len(), copies[1].len()));
+    }
+    Ok(text)
 }
 
 fn scratch() -> PathBuf {
@@ -256,6 +283,9 @@ pub fn replay_gen(doc: &Value, t: &mut Tally) {
         };
         let tb = parse_tables(&src);
         let mut diffs: Vec<Value> = Vec::new();
+        if tb.gc != tb.gc2 {
+            diffs.push(json!({"table": "the same category registered under two table names", "first": tb.gc.len(), "second": tb.gc2.len()}));
+        }
         for mcp in 0..m {
             let cp = base + mcp;
             let r = std::panic::catch_unwind(|| {
@@ -359,7 +389,25 @@ fn run_prop_kind(kind: usize, dir: &Path, out: &Path) -> Result<String, String> 
             let mut sg: UnicodeGen<$t> = UnicodeGen::new();
             sg.add(Box::new(UcdTableGen::new($a, "T_GC")));
             sg.add(Box::new(UcdTableGen::new($b, "T_VIR")));
+            sg.add(Box::new(UcdTableGen::new($a, "T_GC2")));
             ucd_gen.add(Box::new(sg));
+            // a parsed aggregator emits the same code every time it is asked to
+            let mut agg: UnicodeGen<$t> = UnicodeGen::new();
+            agg.add(Box::new(UcdTableGen::new($a, "T_GC")));
+            agg.add(Box::new(UcdTableGen::new($b, "T_VIR")));
+            agg.parse_unicode_file(dir).map_err(|e| e.to_string())?;
+            let mut copies: Vec<String> = Vec::new();
+            for k in 0..2 {
+                let path = dir.join(format!("copy{}.rs", k));
+                let mut f = std::fs::File::create(&path).map_err(|e| e.to_string())?;
+                agg.generate_code(&mut f).map_err(|e| e.to_string())?;
+                drop(f);
+                copies.push(std::fs::read_to_string(&path).map_err(|e| e.to_string())?);
+                std::fs::remove_file(&path).ok();
+            }
+            if copies[0] != copies[1] {
+                return Err(format!("STALE: the second emission of a parsed aggregator differs from the first ({} vs {} bytes)", copies[0].len(), copies[1].len()));
+            }
         }};
     }
     match kind {
@@ -430,6 +478,9 @@ pub fn replay_prop(doc: &Value, t: &mut Tally) {
         // the two tables were emitted under the names the shared parser knows (T_GC = first value, T_VIR = second value)
         let tb = parse_tables(&src);
         let mut diffs: Vec<Value> = Vec::new();
+        if tb.gc != tb.gc2 {
+            diffs.push(json!({"table": "the same value registered under two table names", "first": tb.gc.len(), "second": tb.gc2.len()}));
+        }
         for mcp in 0..m {
             let cp = base + mcp;
             let g = std::panic::catch_unwind(|| (in_table(cp, &tb.gc), in_table(cp, &tb.vir)));
